@@ -417,7 +417,7 @@ func (fv *FV) siteAsserts(st *State, callee string, after bool, res []Term, pos 
 		ord++
 	}
 	for i, a := range fv.spec.Asserts {
-		if a.After != after || a.Callee != callee || a.Ord != ord {
+		if a.After != after || a.Callee != callee || (a.Ord != 0 && a.Ord != ord) {
 			continue
 		}
 		var errs []string
